@@ -231,7 +231,7 @@ deriving Repr, DecidableEq
 inductive SAct where
   | arrive (info : SInfo) (amount expiry : Nat) (relExp : Int) (total : Nat)
   | tickMono (dt : Nat)
-  | tickWall (dt : Nat)
+  | tickWall (dt : Int)        -- the wall clock moves (forward, or back when it is stepped: a stored attempt time may lie in the future)
   | block (n : Nat)
   | crash
   | create (id : Nat)
@@ -460,7 +460,7 @@ def stepDeliverBk (v : SVariant) (s : SState) (id : Nat) (q : SReq) : Option (SS
 def sstep (c : Cfg) (v : SVariant) (s : SState) : SAct → Option (SState × List Out)
   | .arrive info amount expiry relExp total => stepArrive c v s info amount expiry relExp total
   | .tickMono dt => some ({ s with mono := s.mono + dt }, [])
-  | .tickWall dt => some ({ s with wall := s.wall + dt }, [])
+  | .tickWall dt => some ({ s with wall := ((s.wall : Int) + dt).toNat }, [])
   | .block n => some ({ s with height := max s.height n }, [])
   | .crash => some ({ s with active := none, bks := [], payRunning := false }, [])
   | .create id =>
